@@ -183,6 +183,22 @@ def run_print_eq(ctx):
             continue
     n = 0
     cases = []
+    # the inverted operator (centric=True, inverted()): exactly -R and -t of what the text denotes
+    for texts, _ in ops:
+        try:
+            plain, cen = SymmetryElement(texts), SymmetryElement(texts, centric=True)
+            inv = plain.inverted()
+        except Exception as ex:
+            common.add_violation(ctx, 'building the inverted operator raises', {'kind': 'centric', 'components': texts}, 'operator', repr(ex))
+            continue
+        n += 1
+        for what, o in (('centric=True', cen), ('inverted()', inv)):
+            ok = all(o.matrix[i, j] == -plain.matrix[i, j] for i in range(3) for j in range(3)) and \
+                all(abs(float(a) + float(b)) < 1e-12 for a, b in zip(o.trans, plain.trans))
+            if not ok:
+                common.add_violation(ctx, 'the inverted operator (%s) is not -R, -t of the operator the text denotes' % what, {'kind': 'centric', 'components': texts},
+                                     'rows %s' % [[-plain.matrix[i, j] for j in range(3)] for i in range(3)], 'rows %s' % [[o.matrix[i, j] for j in range(3)] for i in range(3)])
+                break
     for texts, op in ops:
         n += 1
         printed = op.to_shelxl()
